@@ -9,6 +9,9 @@
                      (two-sided lag sum) for NFFT >= 2*lag+1, both correlation back ends, auto and cross
  Not decided here (see level_note): the Wiener-Khinchin and Parseval *lemmas* over the specification.
 """
+from fractions import Fraction
+from pyvc import values as V
+from pyvc.values import Arr, Cx
 from pyvc.harness import Task
 from . import funcs, classes, model
 
@@ -54,8 +57,84 @@ def periodogram_method_task(datatype):
     return Task("periodogram-method.%s" % datatype, run, functions=["spectrum.psd.FourierSpectrum.periodogram"])
 
 
+def _e3_window_stub(dom, N):
+    """Window(N, name).data = N free real symbols: an ARBITRARY window (C20 proves each named window separately)"""
+    from pyvc.values import Obj
+
+    def Window(I, n, name=None, norm=True, **kargs):
+        o = Obj(I.program.find_class("spectrum.window.Window"))
+        o.attrs["_Window__N"] = n
+        o.attrs["_Window__name"] = name
+        o.attrs["_Window__norm"] = norm
+        o.attrs["_Window__data"] = Arr.from_items([dom.sym("w%d" % j) for j in range(int(n))], dtype="float")
+        return o
+    return {"spectrum.window.Window": Window}
+
+
+def parseval_task(N, NFFT):
+    """complex data, arbitrary window: the mean of the NFFT values of the real speriodogram equals sum |x w|^2 / N (exact DFT)"""
+    def run(tc):
+        names = sum((["x%d_r" % j, "x%d_i" % j] for j in range(N)), []) + ["w%d" % j for j in range(N)] + \
+            (["sqrt3"] if NFFT in (3, 6, 12) else []) + (["sqrt2"] if NFFT == 8 else [])
+        dom, I = None, None
+        from .e3 import E3, e3_interp
+        dom, I = e3_interp(tc, names)
+        I.stubs.update(_e3_window_stub(dom, N))
+        E = E3(tc, dom, "parseval", {"N": N, "NFFT": NFFT}, tc.seed)
+        x = [dom.csym("x%d" % j) for j in range(N)]
+        w = [dom.sym("w%d" % j) for j in range(N)]
+        v = E.run(I, lambda I_: I_.call_qual("spectrum.periodogram.speriodogram", Arr.from_items(list(x), dtype="complex"), NFFT, False, Fraction(1), False, "anyname"))
+        if v is None:
+            return
+        psd = v.to_list()
+        E.ok("NFFT-values", len(psd) == NFFT, "length %d" % len(psd))
+        want = sum((V.s_abs2(x[j] * w[j]) for j in range(N)), 0) / N
+        E.eq("Parseval:mean(psd)=sum|x*w|^2/N", sum(psd, 0) / NFFT, want)
+    return Task("parseval.complex.N%d.NFFT%d" % (N, NFFT), run, kind="bounded", prerun=True, timeout=150,
+                functions=["spectrum.periodogram.speriodogram"])
+
+
+def wiener_khinchin_task(N, NFFT, cx):
+    """rectangular window, lag N-1, biased normalisation, NFFT >= 2N-1: the real CORRELOGRAMPSD reproduces the real periodogram
+    (two-sided values; for real data the statement's bins 0..NFFT/2 are a prefix of them)"""
+    def run(tc):
+        names = sum((["x%d_r" % j, "x%d_i" % j] if cx else ["x%d" % j] for j in range(N)), []) + \
+            (["sqrt3"] if NFFT in (3, 6, 12) else []) + (["sqrt2"] if NFFT == 8 else [])
+        from .e3 import E3, e3_interp
+        dom, I = e3_interp(tc, names)
+        E = E3(tc, dom, "wiener_khinchin", {"N": N, "NFFT": NFFT, "complex": cx}, tc.seed)
+        x = [dom.csym("x%d" % j) if cx else dom.sym("x%d" % j) for j in range(N)]
+        mk = lambda: Arr.from_items(list(x), dtype="complex" if cx else "float")
+        for method in ("xcorr", "CORRELATION"):
+            c = E.run(I, lambda I_: I_.call_qual("spectrum.correlog.CORRELOGRAMPSD", mk(), None, N - 1, "rectangular", "biased", NFFT, {}, method))
+            if c is None:
+                return
+            cl = c.to_list()
+            E.ok("%s:NFFT-values" % method, len(cl) == NFFT, "length %d" % len(cl))
+            # the periodogram by its definition |DFT_NFFT(x)|^2 / N (what windowed-DFT.* proves speriodogram returns)
+            per = []
+            for k in range(NFFT):
+                X = dom.dtft(lambda j: x[j], N, k, NFFT)
+                per.append(V.s_abs2(X) / N)
+            if len(cl) == NFFT:
+                E.eq("%s:correlogram=periodogram" % method, [V.Cx.of(u) for u in cl], [V.Cx.of(u) for u in per])
+        p = E.run(I, lambda I_: I_.call_qual("spectrum.periodogram.speriodogram", mk(), NFFT, False, Fraction(1), False, "rectangular"))
+        if p is not None:
+            pl = p.to_list()
+            # complex data: all NFFT bins; real data: bins 0..NFFT/2, one-sided (doubled except DC and Nyquist is NOT applied by speriodogram: checked against the definition)
+            if cx:
+                E.eq("speriodogram=|DFT|^2/N (same sizes)", [V.Cx.of(u) for u in pl], [V.Cx.of(V.s_abs2(dom.dtft(lambda j: x[j], N, k, NFFT)) / N) for k in range(NFFT)])
+    return Task("wiener-khinchin.%s.N%d.NFFT%d" % ("complex" if cx else "real", N, NFFT), run, kind="bounded", prerun=True, timeout=150,
+                functions=["spectrum.correlog.CORRELOGRAMPSD", "spectrum.periodogram.speriodogram"])
+
+
 def tasks(tier):
     ts = []
+    for (N, n) in ([(3, 3), (3, 4), (4, 6)] if tier == "quick" else [(3, 3), (3, 4), (4, 4), (4, 6), (4, 8), (5, 12)]):
+        ts.append(parseval_task(N, n))
+    for (N, n) in ([(2, 3), (2, 4), (3, 6)] if tier == "quick" else [(2, 3), (2, 4), (3, 6), (3, 8), (4, 8), (4, 12)]):
+        for cx in (False, True):
+            ts.append(wiener_khinchin_task(N, n, cx))
     for dt in ("real", "complex"):
         ts.append(funcs.speriodogram_task("C01", dt, "int"))
         ts.append(funcs.speriodogram_task("C01", dt, "None"))
